@@ -1,9 +1,22 @@
 /-
 Model of the engine front ends: `pybtex.Engine.make_bibliography` (driven by an `.aux` file),
-`format_from_files` / `format_from_string(s)` of the BibTeX engine
-(`pybtex/__init__.py`, `pybtex/bibtex/__init__.py`), on top of the `.aux` reader (C20), the
-`.bst` parser (C15) and the interpreter (C03).
+`format_from_files` / `format_from_file` / `format_from_string(s)` of the BibTeX engine
+(`pybtex/__init__.py`, `pybtex/bibtex/__init__.py`) and `Interpreter.run`
+(`pybtex/bibtex/interpreter.py`), on top of the `.aux` reader (C20), the `.bst` parser (C15) and
+the interpreter's commands (C03).
 (`make_bibliography` after the repair: the explicit `style` and `bib_format` are forwarded.)
+
+The model follows the order in which the code touches the outside world:
+* the `.bst` file is opened and read at once (`bst.parse_file`), but it is *parsed lazily*
+  (`BstParser.parse` is a generator consumed by the `for command in self.bst_script` loop of
+  `Interpreter.run`): a syntax error in the style surfaces only after the commands in front of it
+  have run (`parsePrefix`, `formatFromFiles`);
+* the bibliography files are opened inside `command_read` (`parse_files`), not before: a style
+  without `READ` never opens them, a style that raises before `READ` raises that error whatever
+  the files are (`stepF`);
+* a command without a `command_<name>` method is printed as `Unknown command <name>` and skipped
+  (`stepF`; the `.bst` parser only lets the ten known names through, so this is reachable only
+  for a program handed to `Interpreter.run` directly).
 -/
 import PybtexModel.Model.AuxFile
 import PybtexModel.Model.Interp
@@ -11,7 +24,8 @@ import PybtexModel.Model.Interp
 namespace Pybtex.Engine
 open Pybtex.Interp
 
-/-- the files a run can see: `.aux` files as line lists, `.bst` / `.bib` files as text -/
+/-- the files a run can see: `.aux` files as line lists, `.bst` / `.bib` files as the text a
+text-mode `open` delivers -/
 structure Files where
   aux : Aux.FS
   text : List Char → Option Str
@@ -30,47 +44,211 @@ structure Result where
 
 def runFuel : Nat := 100000000
 
-def readTexts (files : Files) : List Str → Except Err (List Str)
+/-- an element of `bib_files_or_filenames`: a file name, or an open text stream
+(`format_from_string(s)` wraps each string into a `StringIO`; `pybtex.io._open` hands an object
+with `read` and `close` back as it is) -/
+inductive Src where
+  | file (name : Str)
+  | text (t : Str)
+deriving Repr
+
+/-- `parse_files`: the sources are opened one after the other; a missing file is a `PybtexError`
+(whatever was read before is lost with the run) -/
+def readSrcs (files : Files) : List Src → Except Err (List Str)
   | [] => .ok []
-  | n :: ns =>
+  | .file n :: ns =>
     match files.text n with
     | none => .error (.cannotOpen n)
     | some t =>
-      match readTexts files ns with
+      match readSrcs files ns with
       | .error e => .error e
       | .ok ts => .ok (t :: ts)
+  | .text t :: ns =>
+    match readSrcs files ns with
+    | .error e => .error e
+    | .ok ts => .ok (t :: ts)
 
-/-- `BibTeXEngine.format_from_files(bib_filenames, style, citations, min_crossrefs=…)`;
+/-- a database reader plug-in as `make_bibliography` / `format_from_files` see it: its
+`default_suffix` and, for a reader other than the built-in BibTeX one, the database it delivers
+for the files of this run (entries in file order, preamble); `none` = the BibTeX reader, whose
+work on the `.bib` text is part of the model (`READ`) -/
+structure Format where
+  suffix : Str
+  alt : Option (List (Str × Bib.Entry) × List Str)
+
+/-- `find_plugin('pybtex.database.input', None)`: the BibTeX reader -/
+def bibtexFormat : Format := ⟨".bib".toList, none⟩
+
+/-- what `Interpreter.run` is given besides the program -/
+structure Job where
+  files : Files
+  srcs : List Src
+  citations : List Str
+  minCrossrefs : Int
+  alt : Option (List (Str × Bib.Entry) × List Str)
+
+def Job.input (j : Job) (texts : List Str) : Input :=
+  { bibTexts := texts, citations := j.citations, minCrossrefs := j.minCrossrefs, alt := j.alt }
+
+/-- the texts `command_read` parses: with another reader the `.bib` texts are not looked at
+(that reader's database is `alt`) -/
+def readInput (j : Job) : Except Err (List Str) :=
+  match j.alt with
+  | some _ => .ok []
+  | none => readSrcs j.files j.srcs
+
+/-- `hasattr(self, 'command_' + name.lower())` -/
+def knownCommand (name : Str) : Bool := Gen.bstCommands.any fun p => p.1 = upper name
+
+def liftRun (r : Except IErr St) : Except Err St :=
+  match r with
+  | .error e => .error (.run e)
+  | .ok s => .ok s
+
+/-- one turn of the loop of `Interpreter.run`: `READ` opens the bibliography sources (and only
+`READ` does), an unknown command is printed and skipped -/
+def stepF (fuel : Nat) (j : Job) (c : Bst.Command) (s : St) : Except Err St :=
+  if upper c.name = "READ".toList then
+    match readInput j with
+    | .error e => .error e
+    | .ok ts => liftRun (runCommand fuel (j.input ts) c s)
+  else if knownCommand c.name then liftRun (runCommand fuel (j.input []) c s)
+  else .ok { s with printed := s.printed ++ ["Unknown command ".toList ++ c.name] }
+
+/-- the loop of `Interpreter.run` -/
+def runProgramF (fuel : Nat) (j : Job) : Bst.Program → St → Except Err St
+  | [], s => .ok s
+  | c :: cs, s =>
+    match stepF fuel j c s with
+    | .error e => .error e
+    | .ok s => runProgramF fuel j cs s
+
+/-- the sort key of a citation: the entry variable `sort.key$` of its frame (empty when never
+assigned); `none` = not a string -/
+def sortKeyOf (s : St) (c : Str) : Option Str :=
+  match dget (frameOf s c) "sort.key$".toList with
+  | some v => valToStr v
+  | none => some []
+
+/-- what a `SORT` command sees: the citations in their order before the sort, with their keys -/
+abbrev SortObs := List (Str × Option Str)
+
+def sortObs (s : St) : SortObs := s.citations.map fun c => (c, sortKeyOf s c)
+
+/-- `runProgramF` that also records what every executed `SORT` saw (for the harness: the
+reference values of the sort-order clause); `runProgramT_fst`: its state is `runProgramF`'s -/
+def runProgramT (fuel : Nat) (j : Job) : Bst.Program → St → List SortObs → Except Err (St × List SortObs)
+  | [], s, tr => .ok (s, tr)
+  | c :: cs, s, tr =>
+    match stepF fuel j c s with
+    | .error e => .error e
+    | .ok s' => runProgramT fuel j cs s' (if upper c.name = "SORT".toList then tr ++ [sortObs s] else tr)
+
+/-- the commands `BstParser.parse` yields before it stops, and why it stopped (`none` = end of
+text).  `parsePrefixF_spec` (Lemmas/Engine.lean): `Bst.parseF` is `.ok` of the commands when the
+reason is `none`, and the error otherwise. -/
+def parsePrefixF : Nat → Scanner.St → Bst.Program × Option Scanner.Err
+  | 0, _ => ([], some .outOfFuel)
+  | fuel + 1, st =>
+    match Bst.parseCommand st with
+    | .error .eof => ([], none)
+    | .error e => ([], some e)
+    | .ok (c, st1) => ((c :: (parsePrefixF fuel st1).1), (parsePrefixF fuel st1).2)
+
+/-- the text `bst.parse_file` hands to the parser -/
+def bstText (src : Str) : Str := Bst.streamText (streamLines (universalNewlines src))
+
+def parsePrefix (src : Str) : Bst.Program × Option Scanner.Err :=
+  parsePrefixF ((bstText src).length + 1) (Scanner.St.init (bstText src))
+
+def initSt (citations : List Str) : St := { vars := initVars, citations := citations }
+
+def resultOf (s : St) : Result := ⟨s.lines.flatten, s.reports, s.printed⟩
+
+/-- `Interpreter.run(bst_script, citations, bib_files, min_crossrefs)` on an already parsed script -/
+def interpreterRun (fuel : Nat) (j : Job) (prog : Bst.Program) : Except Err Result :=
+  match runProgramF fuel j prog (initSt j.citations) with
+  | .error e => .error e
+  | .ok s => .ok (resultOf s)
+
+def interpreterRunT (fuel : Nat) (j : Job) (prog : Bst.Program) : Except Err (Result × List SortObs) :=
+  match runProgramT fuel j prog (initSt j.citations) [] with
+  | .error e => .error e
+  | .ok (s, tr) => .ok (resultOf s, tr)
+
+/-- `BibTeXEngine.format_from_files(bib_files_or_filenames, style, citations, min_crossrefs=…)`;
 `alt` = the database another `bib_format` reader delivers for these files. -/
-def formatFromFiles (files : Files) (bibNames : List Str) (style : Str) (citations : List Str)
+def formatFromFiles (files : Files) (srcs : List Src) (style : Str) (citations : List Str)
     (minCrossrefs : Int) (alt : Option (List (Str × Bib.Entry) × List Str)) : Except Err Result :=
   match files.text (style ++ ".bst".toList) with
   | none => .error (.cannotOpen (style ++ ".bst".toList))
   | some bst =>
-    match Bst.parseFile bst with
-    | .error _ => .error .bstSyntax
-    | .ok prog =>
-      let texts : Except Err (List Str) := match alt with | some _ => .ok [] | none => readTexts files bibNames
-      match texts with
-      | .error e => .error e
-      | .ok ts =>
-        match run runFuel prog { bibTexts := ts, citations := citations, minCrossrefs := minCrossrefs, alt := alt } with
-        | .error (e, _) => .error (.run e)
-        | .ok o => .ok ⟨o.bbl, o.reports, o.printed⟩
+    match interpreterRun runFuel ⟨files, srcs, citations, minCrossrefs, alt⟩ (parsePrefix bst).1 with
+    | .error e => .error e
+    | .ok r =>
+      match (parsePrefix bst).2 with
+      | some _ => .error .bstSyntax       -- the generator raises when the loop asks for the next command
+      | none => .ok r
 
-/-- `Engine.make_bibliography(aux_filename, style=…, bib_format=…)`: `suffix` is the
-`default_suffix` of the reader (`.bib` unless `bib_format` is given). -/
+/-- `formatFromFiles` with the `SORT` observations (driver only; `formatFromFilesT_fst`) -/
+def formatFromFilesT (files : Files) (srcs : List Src) (style : Str) (citations : List Str)
+    (minCrossrefs : Int) (alt : Option (List (Str × Bib.Entry) × List Str)) : Except Err (Result × List SortObs) :=
+  match files.text (style ++ ".bst".toList) with
+  | none => .error (.cannotOpen (style ++ ".bst".toList))
+  | some bst =>
+    match interpreterRunT runFuel ⟨files, srcs, citations, minCrossrefs, alt⟩ (parsePrefix bst).1 with
+    | .error e => .error e
+    | .ok r =>
+      match (parsePrefix bst).2 with
+      | some _ => .error .bstSyntax
+      | none => .ok r
+
+/-- `Engine.format_from_file(filename, …)` -/
+def formatFromFile (files : Files) (name : Str) (style : Str) (citations : List Str)
+    (minCrossrefs : Int) (alt : Option (List (Str × Bib.Entry) × List Str)) : Except Err Result :=
+  formatFromFiles files [.file name] style citations minCrossrefs alt
+
+/-- `Engine.format_from_strings(bib_strings, …)`: every string becomes a `StringIO` -/
+def formatFromStrings (files : Files) (texts : List Str) (style : Str) (citations : List Str)
+    (minCrossrefs : Int) (alt : Option (List (Str × Bib.Entry) × List Str)) : Except Err Result :=
+  formatFromFiles files (texts.map .text) style citations minCrossrefs alt
+
+/-- `Engine.format_from_string(bib_string, …)` -/
+def formatFromString (files : Files) (text : Str) (style : Str) (citations : List Str)
+    (minCrossrefs : Int) (alt : Option (List (Str × Bib.Entry) × List Str)) : Except Err Result :=
+  formatFromStrings files [text] style citations minCrossrefs alt
+
+/-- the file names `make_bibliography` builds from `\bibdata` and the reader's suffix -/
+def bibSrcs (data : List Str) (suffix : Str) : List Src := data.map fun d => .file (d ++ suffix)
+
+/-- `Engine.make_bibliography(aux_filename, style=…, bib_format=…)`:
+`bib_format = find_plugin('pybtex.database.input', bib_format)` — ONE reader object gives both
+the suffix of the file names and the reader `READ` uses; `style=None` means the `\bibstyle`. -/
 def makeBibliography (files : Files) (auxName : Str) (auxFuel : Nat) (styleOverride : Option Str)
-    (suffix : Str) (minCrossrefs : Int) (alt : Option (List (Str × Bib.Entry) × List Str)) :
-    Except Err (Result × List Aux.Report) :=
+    (bibFormat : Option Format) (minCrossrefs : Int) : Except Err (Result × List Aux.Report) :=
+  let fmt := bibFormat.getD bibtexFormat
   match Aux.parse files.aux auxFuel auxName with
   | .error a => .error (.aux a)
   | .ok st =>
     match st.style, st.data with
     | some style, some data =>
-      match formatFromFiles files (data.map (· ++ suffix)) (styleOverride.getD style) st.citations minCrossrefs alt with
+      match formatFromFiles files (bibSrcs data fmt.suffix) (styleOverride.getD style) st.citations minCrossrefs fmt.alt with
       | .error e => .error e
       | .ok r => .ok (r, st.reports)
     | _, _ => .error (.aux ⟨.attributeError, st.reports⟩)   -- excluded by `finish` at top level
+
+/-- `makeBibliography` with the `SORT` observations (driver only) -/
+def makeBibliographyT (files : Files) (auxName : Str) (auxFuel : Nat) (styleOverride : Option Str)
+    (bibFormat : Option Format) (minCrossrefs : Int) : Except Err ((Result × List SortObs) × List Aux.Report) :=
+  let fmt := bibFormat.getD bibtexFormat
+  match Aux.parse files.aux auxFuel auxName with
+  | .error a => .error (.aux a)
+  | .ok st =>
+    match st.style, st.data with
+    | some style, some data =>
+      match formatFromFilesT files (bibSrcs data fmt.suffix) (styleOverride.getD style) st.citations minCrossrefs fmt.alt with
+      | .error e => .error e
+      | .ok r => .ok (r, st.reports)
+    | _, _ => .error (.aux ⟨.attributeError, st.reports⟩)
 
 end Pybtex.Engine
